@@ -176,8 +176,11 @@ func runC13(in *Sx) *Sx {
 		// a writer over a writer: the lower one lives through its own operations first
 		w = flamego.NewResponseWriter(o.Field("method").Args()[0].Atom, under)
 		pre := run13(w, spy, &events, o.Field("ops").Args())
+		lower := w
 		w = flamego.NewResponseWriter(method, w)
-		return T("obs", T("outs", run13(w, spy, &events, in.Field("ops").Args())...), T("pre", pre...))
+		outs := run13(w, spy, &events, in.Field("ops").Args())
+		// the lower writer was written through: its own books must say so
+		return T("obs", T("outs", outs...), T("pre", pre...), T("low", I(lower.Status()), B(lower.Written()), I(lower.Size())))
 	}
 	w = flamego.NewResponseWriter(method, under)
 	return T("obs", T("outs", run13(w, spy, &events, in.Field("ops").Args())...))
